@@ -99,6 +99,14 @@ class LambdaV:
         self.key = "lambda@%d" % node.lineno
 
 
+class PropV:
+    """A property object built at run time: property(fget, fset)."""
+
+    def __init__(self, fget, fset=None):
+        self.fget, self.fset = fget, fset
+        self.key = "property(%s,%s)" % (getattr(fget, "key", "?"), getattr(fset, "key", "-"))
+
+
 class ClassV:
     def __init__(self, ci):
         self.ci = ci
@@ -595,6 +603,10 @@ class Evaluator:
             fr = Frame(c.module, None, None, c)
             fr.vars.update({mn: self.method_value(mf) for mn, mf in c.methods.items() if mf.kind == "function"})
             val = self.eval(vnode, fr)
+            if isinstance(val, PropV):
+                if obj is None:
+                    return Top("property object")
+                return self.call(val.fget, [obj], {}, node)
             if isinstance(val, FuncV) and obj is not None and val.fi.kind != "staticmethod":
                 return val.bind(obj)
             return val
@@ -616,6 +628,20 @@ class Evaluator:
             if st is not None:
                 self.call_function(FuncV(st, None, target, st.cls), [value], {}, node)
                 return
+            pm = target.cls.find_method(name)
+            if pm is not None and pm.kind == "property":
+                raise RaiseSignal(App("AttributeError", (Const(name),)), node)
+            if name not in target.attrs and pm is None:
+                a = target.cls.find_assign(name)
+                if a is not None and a[1] is not None and isinstance(a[1], ast.Call):
+                    c, vnode = a
+                    fr = Frame(c.module, None, None, c)
+                    val = self.eval(vnode, fr)
+                    if isinstance(val, PropV):
+                        if val.fset is None:
+                            raise RaiseSignal(App("AttributeError", (Const(name),)), node)
+                        self.call(val.fset, [target, value], {}, node)
+                        return
             self.event("attr_store", obj=target, attr=name, value=value, in_init=target.in_init > 0, node=node)
             target.attrs[name] = value
             return
@@ -1186,6 +1212,17 @@ class Evaluator:
         if not (isinstance(a, V) and isinstance(b, V)):
             self.note_unmodelled("binop %s on %s,%s" % (op, type(a).__name__, type(b).__name__), node)
             return Top("binop on objects")
+        if op in ("BitAnd", "BitOr", "Sub", "BitXor") and all(isinstance(x, App) and x.fn == "set" and all(isinstance(i, (Const, EnumM)) for i in x.args) for x in (a, b)):
+            sa_, sb_ = list(a.args), [i for i in b.args]
+            if op == "BitOr":
+                items = sa_ + [i for i in sb_ if i not in sa_]
+            elif op == "BitAnd":
+                items = [i for i in sa_ if i in sb_]
+            elif op == "Sub":
+                items = [i for i in sa_ if i not in sb_]
+            else:
+                items = [i for i in sa_ if i not in sb_] + [i for i in sb_ if i not in sa_]
+            return App("set", sorted(items, key=key_of))
         if op in ("BitAnd", "BitOr") and (is_boolish(a) or is_boolish(b)):
             ta = a if is_boolish(a) else App("mask", (a,))
             tb = b if is_boolish(b) else App("mask", (b,))
